@@ -23,6 +23,8 @@ pub struct HookEv {
 }
 
 pub static HOOK_LOG: Mutex<Vec<HookEv>> = Mutex::new(Vec::new());
+/// panics observed in this process (the in-process server's tasks included)
+pub static PANICS: AtomicU64 = AtomicU64::new(0);
 
 pub fn install_hook() {
     memcrs::verif::set_hook(Some(Arc::new(|ev: &memcrs::verif::Event| {
@@ -351,6 +353,7 @@ pub fn run_stream_universe(srv: &Server, frames: &[Frame], seg: &[usize], u: usi
     reset_store(srv);
     HOOK_LOG.lock().unwrap().clear();
     let segdesc = if seg.len() > 8 { format!("{} chunks, first {:?}", seg.len(), &seg[..4]) } else { format!("{:?}", seg) };
+    let panics0 = PANICS.load(Ordering::SeqCst);
     let (resp, how, delivered, lport) = exchange(srv.port, frames, seg, sentinel, 60);
     // what the server actually read, per read call (the segmentation that really happened)
     let reads: Vec<u64> = hook_snapshot().iter().filter(|e| e.site == "conn.read" && e.nums[0] == lport as u64).map(|e| e.nums[1]).collect();
@@ -371,7 +374,8 @@ pub fn run_stream_universe(srv: &Server, frames: &[Frame], seg: &[usize], u: usi
         i += 24 + bl;
     }
     writeln!(out, "{}", json!({"e": "trun", "u": u, "seg": segdesc, "how": how, "delivered": delivered,
-        "r": rs, "resp": hex(&masked), "store": snapshot_json(srv), "nreads": reads.len(), "maxcap": maxcap})).unwrap();
+        "r": rs, "resp": hex(&masked), "store": snapshot_json(srv), "nreads": reads.len(), "maxcap": maxcap,
+        "panics": PANICS.load(Ordering::SeqCst) - panics0})).unwrap();
     1
 }
 
@@ -380,6 +384,7 @@ pub fn run_stream_universe(srv: &Server, frames: &[Frame], seg: &[usize], u: usi
 pub fn run_cut_universe(srv: &Server, bytes: &[u8], seg: &[usize], u: usize, complete: bool, out: &mut dyn Write) -> usize {
     reset_store(srv);
     HOOK_LOG.lock().unwrap().clear();
+    let panics0 = PANICS.load(Ordering::SeqCst);
     let mut c = match Client::connect(srv.port) {
         Ok(c) => c,
         Err(_) => return 0,
@@ -417,6 +422,7 @@ pub fn run_cut_universe(srv: &Server, bytes: &[u8], seg: &[usize], u: usize, com
     }
     let segdesc = if seg.len() > 8 { format!("{} chunks, first {:?}", seg.len(), &seg[..4]) } else { format!("{:?}", seg) };
     writeln!(out, "{}", json!({"e": "trun", "u": u, "seg": segdesc, "how": how, "delivered": delivered, "complete": complete,
-        "r": rs, "resp": hex(&masked), "store": snapshot_json(srv), "nreads": nreads, "maxcap": maxcap})).unwrap();
+        "r": rs, "resp": hex(&masked), "store": snapshot_json(srv), "nreads": nreads, "maxcap": maxcap,
+        "panics": PANICS.load(Ordering::SeqCst) - panics0})).unwrap();
     1
 }
